@@ -38,7 +38,8 @@ namespace pure {
 #endif
         for ( size_t hs : hash_sizes ) {
             size_t const hash_bits = hs * 8;
-            for ( size_t hb = 0; hb <= hash_bits; ++hb )
+            // the additional byte-array sizes (not in the property's quantifier) only with heads that fit a size_t
+            for ( size_t hb = 0; hb <= ( hs > 8 ? size_t( 32 ) : hash_bits ); ++hb )
                 for ( size_t ab = 0; ab <= 16; ++ab ) {
                     // documented minima: head_bits >= 4, array_bits >= 2; the head may only grow, by less than one array level
                     size_t const a_req = ab < 2 ? 2 : ab;
